@@ -372,6 +372,22 @@ def nikolaev(ctx):
             ctx.check(ok, "OWN.move-out-destroy", C + "do_pop#consume<destroy<free", "element consumed, destroyed, then its index freed",
                       "a popped element must be moved out, destroyed and only then its index returned to the free queue (otherwise a producer constructs over a live element)",
                       fn.where(), fn=fn)
+    # an element may only be destroyed after its index left the allocated queue (otherwise the node destructor, which drains that queue, destroys it again)
+    for pat in (Q + "node::steal_init_value", Q + "node::~node", Q + "node::try_push", Q + "do_pop", X + "nikolaev_bounded_queue::do_pop", X + "nikolaev_bounded_queue::~nikolaev_bounded_queue"):
+        for fn in ctx.facts.shapes(pat):
+            dts = [d for d in flow.find(fn, DTOR)]
+            if not dts:
+                continue
+            deq = [e for e in flow.find(fn, call("nikolaev_scq::dequeue")) if "_allocated_queue" in fn.expr(e)]
+            enq = [e for e in flow.find(fn, call("nikolaev_scq::enqueue")) if "_allocated_queue" in fn.expr(e)]
+            for d in dts:
+                ok = any(fn.before(q_, d) for q_ in deq)
+                if not ok and enq:
+                    o, pth, n_ = flow.only_via(fn, d, lambda f_, nid: nid in enq, False)
+                    ok = o and n_ > 0
+                ctx.check(ok, "OWN.move-out-destroy", pat + "#destroy|index-left-allocated-queue", "element destroyed only after its index was dequeued from (or never entered) the allocated queue",
+                          "an element is destroyed while its index is still in the allocated queue: the node destructor drains that queue and destroys the element a second time",
+                          fn.where(d), fn=fn)
     for fn in flow._shapes(ctx, X + "nikolaev_bounded_queue::try_push"):
         pn = flow.find(fn, PLACEMENT_NEW)
         enq = [e for e in flow.find(fn, call("nikolaev_scq::enqueue")) if "_allocated_queue" in fn.expr(e)]
@@ -430,6 +446,16 @@ def vyukov_bounded(ctx):
                 ok, path, n = flow.only_via(fn, p, lambda f_, nid: nid in cas, True)
                 ctx.check(ok and n > 0, rid, inst + "#payload|won-position", "cell touched only after winning the position CAS",
                           "the cell payload is accessed without having won the CAS on %s (two threads use one cell)" % posf, fn.where(p), fn=fn)
+            if f == "do_try_push":
+                fwd = [e for e in flow.find(fn, {"k": "call"}) if fn.nodes[e].get("callee") in ("std::forward", "std::move") and fn.kids(e)
+                       and fn.nodes[fn.kids(e)[0]]["k"] == "ref" and fn.nodes[fn.kids(e)[0]].get("dk") == "param"]
+                okf = True
+                for e in fwd:
+                    o_, p_, n_ = flow.only_via(fn, e, lambda f_, nid: nid in cas, True)
+                    okf = okf and o_ and n_ > 0
+                ctx.check(okf, "OWN.release", inst + "#args-consumed|won-position" + wtag, "the caller's arguments are forwarded only after the position CAS was won",
+                          "the pushed value is consumed (forwarded / moved from) before the push is known to succeed: a rejected try_push leaves the caller with a moved-from value",
+                          fn.where(fwd[0]) if fwd else fn.where(), fn=fn)
             ok = all(any(fn.before(p, s_) for p in pl) for s_ in seqst) and all(any(fn.before(p, s_) for s_ in seqst) for p in pl)
             ctx.check(ok, rid, inst + "#payload<sequence-store", "payload operation precedes the release store of the sequence",
                       "the cell's sequence is published before the payload was %s" % ("constructed" if f == "do_try_push" else "moved out and destroyed"), fn.where(seqst[0]), fn=fn)
